@@ -20,12 +20,16 @@ pub struct TestSource {
     /// in bytes mode: the read with this index delivers its samples in containers one byte wider than the
     /// declared sample width (a fill the encoder must reject as a source error)
     pub wide_at: Option<usize>,
+    /// in bytes mode: the read with this index delivers a RAGGED buffer - the bytes of its last sample are missing, so the
+    /// byte count is not a whole number of inter-channel samples (a fill the frame buffer must reject as a source error
+    /// BEFORE anything reaches the MD5 context)
+    pub ragged_at: Option<usize>,
     pub reads: usize,
 }
 
 impl TestSource {
     pub fn new(pcm: &Pcm, bytes_mode: bool, hint: bool) -> Self {
-        TestSource { pcm: pcm.clone(), pos: 0, bytes_mode, hint, fail_at: None, wide_at: None, reads: 0 }
+        TestSource { pcm: pcm.clone(), pos: 0, bytes_mode, hint, fail_at: None, wide_at: None, ragged_at: None, reads: 0 }
     }
 }
 
@@ -60,7 +64,12 @@ impl Source for TestSource {
         if self.bytes_mode {
             let bps = (self.pcm.bps + 7) / 8;
             let bps = if self.wide_at == Some(k) && bps < 4 { bps + 1 } else { bps };
-            dest.fill_le_bytes(&le_bytes(src, bps), bps)?;
+            let mut bytes = le_bytes(src, bps);
+            if self.ragged_at == Some(k) && bytes.len() >= bps && (ch >= 2 || bps >= 2) {
+                let cut = if ch >= 2 { bps } else { 1 };
+                bytes.truncate(bytes.len() - cut);
+            }
+            dest.fill_le_bytes(&bytes, bps)?;
         } else {
             dest.fill_interleaved(src)?;
         }
